@@ -154,12 +154,21 @@ func genGiant(r *zsimrt.Rand, sc *Scenario) {
 	sc.Shared = []ExprSpec{{Kind: "parse", Query: q, Field: field}}
 	nTasks := 2 + r.Intn(2)
 	sc.Late = make([]bool, nTasks)
-	kinds := []string{KParse, KParse, KToPG, KToPG, KToParam, KToParam, KValidate, KValidate, KRenderParam, KRender, KMarshal, KString}
+	kinds := []string{KParse, KParse, KToPG, KToParam, KValidate, KValidate, KRenderParam, KRender, KMarshal, KString, KString, KGoString, KSprint}
+	// half of the giant runs are symmetric: every task makes the SAME kind of call, so that
+	// all of them are deep inside the same recursive function at the same time
+	symKind := ""
+	if r.Intn(2) == 0 {
+		symKind = kinds[r.Intn(len(kinds))]
+	}
 	total := 0
 	for t := 0; t < nTasks; t++ {
 		var ops []Op
 		for i := 0; i < 1+r.Intn(2); i++ {
 			op := Op{Kind: kinds[r.Intn(len(kinds))], Shared: -1}
+			if symKind != "" {
+				op.Kind = symKind
+			}
 			switch op.Kind {
 			case KParse, KToPG, KToParam:
 				op.Query, op.Field = q, field
